@@ -87,6 +87,7 @@ type upload struct {
 	state string
 	patch int
 	small bool // a chunk below the advertised minimum was received (only the last chunk may be short)
+	kept  bool
 }
 
 // Cfg are the behaviour switches of a host.
@@ -104,6 +105,7 @@ type Cfg struct {
 	AckPlan         []int  // i-th PATCH of a session: bytes of the chunk to accept (-1 / beyond = all)
 	AckStyle        string // "202" (default) or "416"
 	TagPageHole     int    // > 0: the k-th page of a paged tag listing is empty and only carries the Link to its content
+	MonoPutKeep     int    // > 0: the first single-request PUT of a session stores this many bytes of its body and then fails with 500
 	MaxAccept       int    // > 0: at most this many bytes of any PATCH are accepted (reported like an AckPlan cut)
 	EmptyRange      string // Range value of a session that holds no bytes: "0-0" (default, distribution) or "0--1" (olareg)
 	Early201        bool   // answer the PATCH that completes nothing special with 201 instead of 202
@@ -111,6 +113,7 @@ type Cfg struct {
 	RefuseMonoPut   bool   // refuse PUT with a body on a session that has no data yet
 	BlobRedirect    string // base URL of another host to redirect blob GETs to
 	BlobCL          string // "" right, "wrong", "none"
+	BlobDigestHdr   string // Docker-Content-Digest of blob responses: "" echoes the requested digest, "none" omits it, "actual" names the bytes that are served
 	RangeMode       string // "" ok, "ignore", "wrongoffset", "wrongbytes", "nocr"
 	RejectMissing   bool   // validating mode: refuse manifest PUTs whose references are missing
 	ReadOnly        bool   // refuse every mutation with 405 (mirror)
@@ -825,7 +828,17 @@ func (h *Host) blob(ev *Event, r *http.Request) *response {
 		}
 		resp := newResp(200)
 		resp.hdr.Set("Content-Type", "application/octet-stream")
-		resp.hdr.Set("Docker-Content-Digest", ev.Ref)
+		switch h.Cfg.BlobDigestHdr {
+		case "none":
+		case "actual":
+			alg, _, _ := la.SplitDigest(ev.Ref)
+			if alg == "" {
+				alg = "sha256"
+			}
+			resp.hdr.Set("Docker-Content-Digest", la.Digest(alg, b))
+		default:
+			resp.hdr.Set("Docker-Content-Digest", ev.Ref)
+		}
 		resp.body = b
 		if rg := r.Header.Get("Range"); rg != "" && ev.Method == "GET" {
 			a, z, ok := parseRange(rg, int64(len(b)))
@@ -1125,6 +1138,17 @@ func (h *Host) upload(ev *Event, r *http.Request, body []byte) *response {
 		}
 		if h.Cfg.EnforceChunkMin && u.small && len(body) > 0 {
 			return h.errResp(400, "BLOB_UPLOAD_INVALID", "an earlier chunk was below the minimum chunk size")
+		}
+		if k := h.Cfg.MonoPutKeep; k > 0 && len(body) > 1 && len(u.buf) == 0 && !u.kept && r.Header.Get("Content-Range") == "" {
+			// the storage backend fails part-way through a single-request upload: what had arrived stays in the session
+			if k >= len(body) {
+				k = len(body) - 1
+			}
+			u.buf = append(u.buf, body[:k]...)
+			u.kept = true
+			ev.Applied = true
+			ev.Fault = fmt.Sprintf("mono-put-kept:%d", k)
+			return h.errResp(500, "UNKNOWN", "backend failed after part of the body was stored")
 		}
 		if len(body) > 0 && len(u.buf) == 0 && h.Cfg.RefuseMonoPut {
 			return h.errResp(400, "UNSUPPORTED", "monolithic put refused")
